@@ -143,6 +143,8 @@ struct Srv : ISrv
   std::string policy;
   bool chunkh, chunked_resp;
   std::string filter;
+  std::string ans_hs, ans_ovl;
+  bool onconn_disc;
   size_t filter_calls_ = 0;
   int k = 0; // requests delivered so far
   std::map<int, weak_conn> conns;           // what the application remembers of each connection
@@ -184,7 +186,18 @@ struct Srv : ISrv
       return;
     std::string n(std::to_string(k));
     if (!chunked_resp)
-      p->send(tx_response(response_status::code::OK), mk<C>("r" + n));
+    {
+      // anshs=<hex>: the header string of the answer; ansovl=nobody|body|bufs: the send overload
+      tx_response r(response_status::code::OK, ans_hs);
+      if (ans_ovl == "nobody")
+        p->send(std::move(r));
+      else if (ans_ovl == "bufs")
+      {
+        p->send(std::move(r), owned.buffers("r" + n));
+      }
+      else
+        p->send(std::move(r), mk<C>("r" + n));
+    }
     else
     {
       std::deque<QItem>& q(queue[cid(w)]);
@@ -203,6 +216,9 @@ struct Srv : ISrv
     chunkh(vh::arg(w, "chunkh", "0") == "1"),
     chunked_resp(vh::arg(w, "resp", "fixed") == "chunked"),
     filter(vh::arg(w, "filter", "")),
+    ans_hs(vh::unhex(vh::arg(w, "anshs", "-"))),
+    ans_ovl(vh::arg(w, "ansovl", "body")),
+    onconn_disc(vh::arg(w, "onconn", "") == "disc"),
     auth("realm"),
     srv(io)
   {
@@ -212,6 +228,13 @@ struct Srv : ISrv
     {
       conns[cid(c)] = c;
       line("ev connected " + cname(c));
+      // onconn=disc: the application turns the connection away from inside its connected handler
+      if (onconn_disc)
+      {
+        std::shared_ptr<conn_type> p(c.lock());
+        if (p)
+          p->disconnect();
+      }
     });
     srv.socket_disconnected_event([](weak_conn c)
     { line("ev disconnected " + cname(c)); });
@@ -254,6 +277,13 @@ struct Srv : ISrv
           if (r.is_chunked() && chunkh)
             return;
           answer(c);
+        }
+        else if (policy == "disc")
+        {
+          // the application ends the connection from inside its request handler, without answering
+          std::shared_ptr<conn_type> p(c.lock());
+          if (p)
+            p->disconnect();
         }
       });
 
